@@ -827,7 +827,7 @@ class Client(BaseClient):
                     if str(name) in (".", ".."):
                         continue
                     stat = cls.path / name, info
-                    if info["type"] == "dir" and recursive:
+                    if info.get("type") == "dir" and recursive:
                         cls.directories.append(stat)
                     return stat
 
